@@ -20,6 +20,50 @@ import overlay  # noqa: E402
 VERIF = overlay.VERIF
 ENV = dict(os.environ, CARGO_NET_OFFLINE="true", CARGO_TERM_COLOR="never")
 ENV.pop("RUSTUP_TOOLCHAIN", None)
+
+
+def _install_cbmc_shim():
+    """kani-driver keeps every CBMC message of every harness in memory until it exits; the clean_up family
+    (514-fold unrolled iterator chains, millions of "Unwinding loop .. iteration N" messages) drove it to 31 GB.
+    The `cargo kani` proxy puts <KANI_HOME>/kani-<ver>/bin in front of PATH, so the filter is installed by pointing
+    KANI_HOME at a scratch directory of symlinks into the real bundle in which only `bin/cbmc` is replaced by
+    tools/bin/cbmc (= real cbmc | tools/src/cbmc_filter.c).  Nothing outside the scratch directory is modified;
+    if anything here fails the real bundle is used unchanged."""
+    import atexit, glob, shutil as _sh
+    if os.environ.get("VERIF_NO_CBMC_SHIM"):
+        return
+    try:
+        bundles = sorted(glob.glob(os.path.join(os.environ.get("KANI_HOME") or os.path.expanduser("~/.kani"), "kani-*")))
+        if not bundles:
+            return
+        bundle = bundles[-1]
+        real = os.path.join(bundle, "bin", "cbmc")
+        filt = os.path.join(VERIF, "tools", "bin", "cbmc_filter")
+        src = os.path.join(VERIF, "tools", "src", "cbmc_filter.c")
+        if not os.path.exists(filt) or os.path.getmtime(filt) < os.path.getmtime(src):
+            for cc in ("gcc", "cc", "clang"):
+                if _sh.which(cc) and subprocess.run([cc, "-O2", "-o", filt, src], capture_output=True).returncode == 0:
+                    break
+        if not (os.path.exists(filt) and os.path.exists(real)):
+            return
+        home = os.path.join(overlay.scratch_root(), f"x86_64-verif.kanihome.{os.getpid()}")
+        dst = os.path.join(home, os.path.basename(bundle))
+        os.makedirs(os.path.join(dst, "bin"))
+        atexit.register(lambda: _sh.rmtree(home, ignore_errors=True))
+        for e in os.listdir(bundle):
+            if e != "bin":
+                os.symlink(os.path.join(bundle, e), os.path.join(dst, e))
+        for e in os.listdir(os.path.join(bundle, "bin")):
+            if e != "cbmc":
+                os.symlink(os.path.join(bundle, "bin", e), os.path.join(dst, "bin", e))
+        _sh.copy(os.path.join(VERIF, "tools", "bin", "cbmc"), os.path.join(dst, "bin", "cbmc"))
+        os.chmod(os.path.join(dst, "bin", "cbmc"), 0o755)
+        ENV.update(KANI_HOME=home, VERIF_REAL_CBMC=real, VERIF_CBMC_FILTER=filt)
+    except Exception as e:  # noqa
+        print(f"note: CBMC output filter not installed ({e})", file=sys.stderr, flush=True)
+
+
+_install_cbmc_shim()
 import signal
 
 
@@ -309,7 +353,8 @@ def replay(ov, prop, item, extra, timeout=900, native=True):
     path = os.path.join(outdir, uniq + ".rs")
     cmd = ["cargo", "kani", "--harness", h, "--exact", "-Z", "concrete-playback", "--concrete-playback=print"] + extra
     try:
-        _rc, gen_out = run_group(cmd, ov, ENV, timeout)
+        # concrete playback reads the counterexample values from CBMC's trace: this run is not filtered
+        _rc, gen_out = run_group(cmd, ov, dict(ENV, VERIF_CBMC_FILTER=""), timeout)
     except subprocess.TimeoutExpired:
         return None, path, "playback generation timed out"
     blocks = re.findall(r"#\[test\]\s*\nfn kani_concrete_playback_\w+\(\) \{.*?\n\}\n", gen_out, re.S)
